@@ -82,6 +82,9 @@ type JEv struct {
 	VT   string `json:"vt,omitempty"` // virtual time offset
 }
 
+// legitimate worst case is about 40: 3 starts, 3 stops, <= 18 interims, <= 6 refusals and their retries
+const maxTransmissionsPerIncarnation = 64
+
 const downAcctPort = 1 // nothing listens on udp/1 on loopback: connected sockets get ECONNREFUSED at once
 
 // ---------------------------------------------------------------------------------------------
@@ -138,6 +141,13 @@ func (c *childState) hook(name string) {
 			c.client.VerifC08SetServerPort(0, c.spec.AcctPort-1)
 		}
 		c.j(JEv{Ev: "req", I: n, Down: dn, Name: name})
+		if n >= maxTransmissionsPerIncarnation {
+			// a script of <= 6 steps over <= 3 sessions cannot legitimately need this many
+			// transmissions: something is being re-sent without end. Stop here so that the
+			// scenario is judged on what the server has seen instead of running into the watchdog.
+			c.j(JEv{Ev: "runaway", I: n})
+			os.Exit(7)
+		}
 	}
 	c.j(JEv{Ev: "point", Name: name, Occ: occ})
 	if c.spec.KillOcc >= 0 && name == c.spec.KillPoint && occ == c.spec.KillOcc {
